@@ -53,6 +53,7 @@ class Runner:
         self.waiting_on = set()  # before-trigger Deferreds of the firing in progress
         self.n = 0
         self.ev = []
+        self.sub = []            # what the triggers' own registrations / removals reported, in program order
         if api == "raw":
             self.obj = base._ThreePhaseEvent()
         else:
@@ -67,11 +68,29 @@ class Runner:
     def _decoy(self, ph):
         self.runlog.append(-1000)
 
-    def _trigger(self, tid, k):
+    def _trigger(self, tid, k, acts):
         from twisted.internet import defer
 
         def trig(*a, **kw):
             self.runlog.append(tid if (a == (tid,) and kw == {"tag": k}) else -tid)
+            # the trigger's script: registrations / removals on the event being fired, through the public API
+            for act in acts:
+                if act["op"] == "add":
+                    new, res = self._register(act["ph"], act["ret"], act["more"])
+                    self.sub.append({"by": tid, "op": "add", "x": new, "res": res})
+                else:
+                    h = act["h"]
+                    if h not in self.handles:
+                        res = "nohandle"
+                    else:
+                        try:
+                            self._remove_api()(self.handles[h])
+                            res = "ok"
+                        except ValueError:
+                            res = "ValueError"
+                        except BaseException as e:
+                            res = "EXC:" + type(e).__name__
+                    self.sub.append({"by": tid, "op": "rm", "x": h, "res": res})
             if k == "raise":
                 raise Boom(tid)
             if k == "defer":
@@ -85,8 +104,29 @@ class Runner:
             return None
         return trig
 
+    def _remove_api(self):
+        return self.obj.removeTrigger if self.api == "raw" else self.obj.removeSystemEventTrigger
+
+    def _register(self, ph, k, acts):
+        """Register a new trigger through the public API (from outside or from a running trigger)."""
+        self.n += 1
+        tid = self.n
+        self.kind[tid], self.phase[tid] = k, ph
+        f = self._trigger(tid, k, acts)
+        try:
+            # positional and keyword arguments are passed through the API and checked by the trigger
+            if self.api == "raw":
+                h = self.obj.addTrigger(ph, f, tid, tag=k)
+            else:
+                h = self.obj.addSystemEventTrigger(ph, "verif", f, tid, tag=k)
+            self.handles[tid] = h
+            return tid, "ok"
+        except BaseException as e:
+            return tid, "EXC:" + type(e).__name__
+
     def _call(self, f, *a):
         del self.runlog[:]
+        del self.sub[:]
         import warnings
         with warnings.catch_warnings():
             warnings.simplefilter("ignore")
@@ -96,22 +136,14 @@ class Runner:
             except BaseException as e:
                 return ("ValueError" if type(e) is ValueError else "EXC:" + type(e).__name__), None
 
-    def add(self, ph, k):
-        self.n += 1
-        tid = self.n
-        self.kind[tid], self.phase[tid] = k, ph
-        f = self._trigger(tid, k)
-        # positional and keyword arguments are passed through the API and checked by the trigger
-        if self.api == "raw":
-            res, h = self._call(lambda: self.obj.addTrigger(ph, f, tid, tag=k))
-        else:
-            res, h = self._call(lambda: self.obj.addSystemEventTrigger(ph, "verif", f, tid, tag=k))
-        self.handles[tid] = h
-        self.ev.append({"e": "add", "ph": ph, "k": k, "id": tid, "res": res, "ran": list(self.runlog)})
+    def add(self, ph, k, acts=()):
+        del self.runlog[:]
+        del self.sub[:]
+        tid, res = self._register(ph, k, list(acts))
+        self.ev.append({"e": "add", "ph": ph, "k": k, "acts": list(acts), "id": tid, "res": res, "ran": list(self.runlog)})
 
     def remove(self, h):
-        rm = self.obj.removeTrigger if self.api == "raw" else self.obj.removeSystemEventTrigger
-        res, _ = self._call(rm, self.handles[h])
+        res, _ = self._call(self._remove_api(), self.handles[h])
         self.ev.append({"e": "remove", "h": h, "res": res, "ran": list(self.runlog)})
 
     def can_fire(self):
@@ -122,7 +154,7 @@ class Runner:
             res, _ = self._call(self.obj.fireEvent)
         else:
             res, _ = self._call(self.obj.fireSystemEvent, "verif")
-        self.ev.append({"e": "fire", "res": res, "ran": list(self.runlog)})
+        self.ev.append({"e": "fire", "res": res, "ran": list(self.runlog), "sub": [dict(x) for x in self.sub]})
 
     def fired(self, d, how):
         dd = self.unfired.pop(d)
@@ -132,11 +164,11 @@ class Runner:
         else:
             res, _ = self._call(dd.errback, Boom(d))
             dd.addErrback(lambda f: None)    # consume, after the event machinery has seen it
-        self.ev.append({"e": "fired", "d": d, "how": how, "res": res, "ran": list(self.runlog)})
+        self.ev.append({"e": "fired", "d": d, "how": how, "res": res, "ran": list(self.runlog), "sub": [dict(x) for x in self.sub]})
 
     def apply(self, op):
         if op[0] == "add":
-            self.add(op[1], op[2])
+            self.add(op[1], op[2], op[3] if len(op) > 3 else ())
         elif op[0] == "remove":
             self.remove(op[1])
         elif op[0] == "fire":
@@ -182,6 +214,49 @@ def config_histories(conf, max_removed):
                 yield h
 
 
+def act_add(ph, ret="plain", more=()):
+    return {"op": "add", "ph": ph, "ret": ret, "h": 0, "more": list(more)}
+
+
+def act_rm(h):
+    return {"op": "rm", "ph": "-", "ret": "-", "h": h, "more": []}
+
+
+def reentrant_histories():
+    """Triggers that, while running, register a trigger (for each phase) or remove trigger h (earlier, later,
+    themselves, not existing): every 2-trigger configuration, every 3-trigger configuration with one such trigger,
+    and every 2-trigger configuration behind a Deferred-returning before-trigger (the scripts then run in the
+    continuation started by firing that Deferred)."""
+    def kinds(nmax):
+        return [("plain", ())] + [("plain", (act_add(ph),)) for ph in PHASES] + [("plain", (act_rm(h),)) for h in range(1, nmax + 1)]
+    def trig(nmax):
+        return [(ph, k, acts) for ph in PHASES for k, acts in kinds(nmax)]
+    for conf in itertools.product(trig(3), repeat=2):
+        if any(t[2] for t in conf):
+            yield [("add",) + t for t in conf] + [("fire",), ("fire",)]
+    plain = [(ph, "plain", ()) for ph in PHASES]
+    for pos in range(3):
+        for sc in [t for t in trig(4) if t[2]]:
+            for rest in itertools.product(plain, repeat=2):
+                conf = list(rest)
+                conf.insert(pos, sc)
+                yield [("add",) + t for t in conf] + [("fire",), ("fire",)]
+    for conf in itertools.product(trig(4), repeat=2):
+        if any(t[2] for t in conf):
+            yield [("add", "before", "defer", ())] + [("add",) + t for t in conf] + [("fire",), ("fired", 1, "ok"), ("fire",)]
+
+
+def random_script(rng, n, depth=0):
+    acts = []
+    for _ in range(rng.choice((1, 1, 2))):
+        if rng.random() < 0.6:
+            more = random_script(rng, n, depth + 1) if (depth == 0 and rng.random() < 0.3) else []
+            acts.append(act_add(rng.choice(PHASES), rng.choice(("plain", "plain", "raise", "defer")), more))
+        else:
+            acts.append(act_rm(rng.randint(1, n + 3)))
+    return acts
+
+
 def random_history(rng, api, nops, maxt):
     """Generated online against the real object: the driver only uses what it observed
     (which triggers returned Deferreds that it has not fired yet)."""
@@ -198,7 +273,7 @@ def random_history(rng, api, nops, maxt):
             k = rng.choice(KINDS if ph == "before" else ("plain", "plain", "raise", "defer", "fired"))
             if ph == "before" and rng.random() < 0.3:
                 k = "defer"
-            op = ("add", ph, k)
+            op = ("add", ph, k, random_script(rng, r.n) if rng.random() < 0.3 else [])
         elif x < 0.80 and r.n:
             op = ("remove", rng.randint(1, r.n))
         elif r.can_fire():
@@ -255,7 +330,7 @@ def report(ctx, traces, rej, what="real system-event execution not explained by 
 
 def run(ctx):
     from harness.core import MachineryError
-    for cfg in ctx.pick(["ThreePhaseMC.a.cfg", "ThreePhaseMC.b.cfg"], ["ThreePhaseMC.cfg", "ThreePhaseMC.thorough.cfg"]):
+    for cfg in ctx.pick(["ThreePhaseMC.a.cfg", "ThreePhaseMC.b.cfg", "ThreePhaseMC.r.cfg"], ["ThreePhaseMC.cfg", "ThreePhaseMC.thorough.cfg", "ThreePhaseMC.r.cfg"]):
         r = ctx.mc("ThreePhaseMC", cfg)
         if not r.ok:
             raise MachineryError("ThreePhase spec violates its own invariants: " + r.error)
@@ -264,6 +339,12 @@ def run(ctx):
     r = ctx.mc("ThreePhaseMC", "ThreePhaseMCreach.cfg", must_pass=False, coverage=False)
     if r.ok or r.kind != "invariant":
         raise MachineryError("vacuity: the waiting-on-two-Deferreds situation is unreachable in ThreePhaseMC")
+    # ... and so are: a trigger registered by a running trigger of the same phase running after an earlier-registered
+    # pending one; a trigger registered for a phase already over left behind; a pending trigger removed by a running one
+    for inv in ("SamePhaseAdd", "Late", "RmPending"):
+        r = ctx.mc("ThreePhaseMC", "ThreePhaseMCreach%s.cfg" % inv, must_pass=False, coverage=False)
+        if r.ok or r.kind != "invariant":
+            raise MachineryError("vacuity: situation Reach%s unreachable in ThreePhaseMC" % inv)
 
     traces = []
     nmax = ctx.pick(3, 4)
@@ -272,8 +353,13 @@ def run(ctx):
         for conf in small_configs(n, kinds_other):
             for i, h in enumerate(config_histories(conf, 1 if n <= 3 else 2)):
                 traces.append(run_history("raw" if (len(traces) % 2 == 0) else "reactor", h))
+    nre = 0
+    for h in reentrant_histories():
+        traces.append(run_history("raw" if (len(traces) % 2 == 0) else "reactor", h))
+        nre += 1
     ctx.exhaustive = True
     ctx.extra["exhaustive_configs_upto_triggers"] = nmax
+    ctx.extra["exhaustive_reentrant_configs"] = nre
     nrand = ctx.pick(500, 30000)
     for i in range(nrand):
         traces.append(random_history(ctx.rng, ctx.rng.choice(["raw", "reactor"]), ctx.rng.randint(6, 60), 20))
@@ -283,7 +369,7 @@ def run(ctx):
         ops = []
         for h in b["hist"]:
             if h["e"] == "add":
-                ops.append(("add", h["ph"], h["k"]))
+                ops.append(("add", h["ph"], h["k"]["ret"], h["k"]["acts"]))
             elif h["e"] == "remove":
                 ops.append(("remove", h["h"]))
             elif h["e"] == "fire":
@@ -291,8 +377,10 @@ def run(ctx):
             else:
                 ops.append(("fired", h["d"], h["how"]))
         t = run_history(b["cfg"]["api"], ops)
-        pred = [(h["e"], h.get("res", "ok"), h.get("ran", [])) for h in b["hist"]]
-        real = [(e["e"], e["res"], e["ran"]) for e in t["ev"]]
+        # (what removing a no longer registered trigger reports is not predicted: compare who did what to whom)
+        strip = lambda sub: [(x["by"], x["op"], x["x"]) for x in sub]
+        pred = [(h["e"], h.get("res", "ok"), h.get("ran", []), strip(h.get("sub", []))) for h in b["hist"]]
+        real = [(e["e"], e["res"], e["ran"], strip(e.get("sub", []))) for e in t["ev"]]
         if pred != real:
             drift += 1
         traces.append(t)
